@@ -44,8 +44,6 @@ DEFAULT = list(CONFIGS)
 # (property, configuration) pairs left out, each with the reason.  Every other pair is quiet on the
 # unchanged tree (measured with several seeds) and is run by every check.
 SKIP = {
-    ('C09', 'rootcritical'): 'the oracle observes the "original exception dropped" record through a handler; with '
-                             'the root logger at CRITICAL the unchanged code (default logger) emits none, by configuration',
     ('C11', 'intdigits'): 'the model is of the default 4300-digit int/str limit; the unchanged code accepts longer '
                           'digit strings once the limit is lifted',
     ('C15', 'intdigits'): 'same: port texts longer than 4300 digits',
